@@ -433,13 +433,16 @@ impl Lifecycle {
                 let mut args = msg.into_iter();
                 let message_id_arg = args.next();
                 let message_id = match message_id_arg {
-                    Some(a) => {
-                        if a.is_big_endian {
-                            u32::from_be_bytes(a.payload_raw.get(0..4).unwrap().try_into().unwrap())
-                        } else {
-                            u32::from_le_bytes(a.payload_raw.get(0..4).unwrap().try_into().unwrap())
+                    Some(a) => match a.payload_raw.get(0..4) {
+                        Some(id_bytes) => {
+                            if a.is_big_endian {
+                                u32::from_be_bytes(id_bytes.try_into().unwrap())
+                            } else {
+                                u32::from_le_bytes(id_bytes.try_into().unwrap())
+                            }
                         }
-                    }
+                        None => 0, // first argument too short to carry a service id
+                    },
                     None => 0,
                 };
                 if message_id == SERVICE_ID_GET_SOFTWARE_VERSION {
